@@ -485,16 +485,26 @@ def replaceLoop (record : Rec) : List Nat → List Rec → Nat → Bool → ZR (
     match records[i]? with
     | none => .panic "rr_set:index"
     | some rr =>
-      if rr.eqv record then .ok (records, ttl, replaced, true)      -- `return false`
+      -- `Record::eq` ignores the TTL; a new TTL replaces the RR (fix 4cf469c)
+      if rr.eqv record && rr.ttl == record.ttl then .ok (records, ttl, replaced, true)   -- `return false`
       else
         -- push(record.clone()); swap_remove(i); self.ttl = record.ttl
         replaceLoop record is (records.set i record) record.ttl true
 
-/-- `RecordSet::insert(record, 0)`.  The three `assert!`s are panic sites. -/
+/-- `self.records.first()` is the same record, TTL included -/
+def sameFirst (records : List Rec) (record : Rec) : Bool :=
+  match records.head? with
+  | some ex => ex.eqv record && ex.ttl == record.ttl
+  | none => false
+
+/-- `RecordSet::insert(record, 0)` (as repaired by 24305ec and 4cf469c).  The three `assert!`s are
+panic sites. -/
 def RSet.insert (rs : RSet) (t : RType) (record : Rec) : ZR RSet :=
   if !Name.eq record.name rs.name then .panic "rr_set:assert_eq-name"
   else if t ≠ rs.rtype then .panic "rr_set:assert_eq-type"
   else
+    -- replacing a CNAME/ANAME by an identical one (TTL included) is not an update (fix 24305ec)
+    if (t = .cname ∨ t = .aname) ∧ rs.records.length ≤ 1 ∧ sameFirst rs.records record then .ok rs else
     let cleared : ZR (List Rec) :=
       if t = .cname ∨ t = .aname then
         if rs.records.length > 1 then .panic "rr_set:assert-cname-len" else .ok []
